@@ -45,14 +45,22 @@ StdOK(x) == x.got = SidRes(FALSE, IF Lookup(x, "m") = "publish" THEN "publish" E
 LinkOK(x) == ~x.got.err /\ x.got.user = x.user /\ x.got.cred = x.cred
 
 \* ---- Authorization: x = [fam, kind, user, pass, token, got = [user, pass, token]]
+\* kind "multi": x.hs = sequence of [scheme, form, user, pass, token] (Descriptors!HV), several values in one request
+MultiFieldsOK(h) ==
+    CASE h.form = "wf" -> ~Has(h.user, ":")
+      [] h.form = "up" -> ~Has(h.user, ":") /\ ~Has(h.pass, ":")
+      [] h.form = "tok" -> ~Has(h.token, ":")
+      [] OTHER -> TRUE
 AuthDecided(x) ==
-    CASE x.kind = "basic" -> ~Has(x.user, ":")
+    CASE x.kind = "multi" -> ~Has2c(x.hs) /\ \A i \in 1..Len(x.hs) : MultiFieldsOK(x.hs[i])
+      [] x.kind = "basic" -> ~Has(x.user, ":")
       [] x.kind = "bearer_up" -> ~Has(x.user, ":") /\ ~Has(x.pass, ":")
       [] x.kind = "bearer_tok" -> ~Has(x.token, ":")
       [] x.kind = "digest" -> TRUE
       [] OTHER -> FALSE
 AuthOK(x) ==
-    CASE x.kind \in {"basic", "bearer_up"} -> x.got = Cred(x.user, x.pass, "")
+    CASE x.kind = "multi" -> InSeq(x.got, Admitted(x.hs))
+      [] x.kind \in {"basic", "bearer_up"} -> x.got = Cred(x.user, x.pass, "")
       [] x.kind = "bearer_tok" -> x.got = Cred("", "", x.token)
       [] x.kind = "digest" -> x.got = Cred(x.user, "", "")
       [] OTHER -> TRUE
@@ -75,7 +83,10 @@ Verdicts ==
         /\ (Decided(x) \/ Emit("OPEN", [l |-> l]))
         /\ Monitor(~Decided(x) \/ OK(x),
                    [l |-> l, dev |-> IF x.fam = "rtsp" /\ x.kind = "basic" /\ Has(x.pass, ":") /\ x.got = NoCred
-                                     THEN "RtspBasicPasswordWithColon" ELSE "none"])
+                                     THEN "RtspBasicPasswordWithColon"
+                                     ELSE IF x.fam = "http" /\ x.kind = "multi" /\ InSeq(x.got, Bare(x.hs))
+                                     THEN "BearerDisplacedByBasic" ELSE "none"])
+        /\ (~(x.fam = "http" /\ x.kind = "multi") \/ x.got = MultiL1(x.hs) \/ Emit("DRIFT", [l |-> l]))
         /\ (x.fam # "link" \/ x.wire = Wire(x.url, x.user, x.cred) \/ Emit("DRIFT", [l |-> l]))
 Accepted == TLCGet("stats").diameter - 1 = Len(Trace)
 =============================================================================
